@@ -4,6 +4,7 @@ import (
 	"bytes"
 	"fmt"
 	"io"
+	"math/big"
 	"math/rand/v2"
 	"testing"
 
@@ -109,7 +110,7 @@ func TestC10(t *testing.T) {
 	defer m.Done()
 	m.Rule("per primitive a stream of (keys, nonce, message, out-argument shape) cases; message length walks 0..70 on every third case and is boundary-weighted (16k±1, 64k±1, 256k±1) up to 2000 otherwise; keys from box.GenerateKey / sign.GenerateKey over a deterministic reader or from libsodium's seed keypair. Each case is run in both directions: Go seals/signs/sums → libsodium opens/verifies and byte-compares; libsodium seals/signs → Go opens; plus one bit-flip per case that both sides must reject. Oracle = libsodium 1.0.18 in-process (crypto_secretbox_easy, crypto_box_easy/_beforenm/_afternm, crypto_box_seal, crypto_sign, crypto_auth). Distinct = (primitive, length class, out shape). Non-trivial = reached a byte comparison with libsodium.")
 	m.Assume("libsodium 1.0.18 (Debian build) is the reference implementation named by the property; the secretbox ciphertext body is additionally cross-checked against the executable XSalsa20 specification (verif/ref/salsa), box public keys against verif/ref/x25519big")
-	m.Note("low-order peer public keys: x/crypto documents no behaviour for box.Seal/Precompute on them (libsodium refuses with -1, Go proceeds with the all-zero shared secret); outcomes are recorded in counters low_order_peer:*, not judged")
+	m.Note("low-order and non-canonical peer public keys are judged against the NaCl definition crypto_box_beforenm = HSalsa20(X25519(sk,pk), 0^16) computed by the reference composition (verif/ref/x25519big ladder -> verif/ref/salsa HSalsa20; secretbox layer by libsodium under that key): Precompute has no error return to deviate from it. libsodium refuses low-order keys and is a witness only where it accepts.")
 
 	perPrim := m.N(3000, 100000)
 
@@ -553,42 +554,158 @@ func TestC10(t *testing.T) {
 		}
 	})
 
-	// ---- low-order peer keys: recorded, not judged ----
-	enc, desc := x25519big.LowOrderEncodings()
-	m.Each("box-low-order-peer", len(enc), func(i int64, r *rand.Rand) {
-		peer := enc[i]
-		_, sk, _ := box.GenerateKey(mon.Reader{R: r})
-		nonce := nonce24(r)
-		msg := mon.Bytes(r, 40)
-		_, sok := sodiumnacl.BoxBeforeNM(&peer, sk)
-		if !sok {
-			m.Count("low_order_peer:libsodium_beforenm_refuses", 1)
-		} else {
-			m.Count("low_order_peer:libsodium_beforenm_accepts", 1)
+	// ---- peer-key family incl. low-order points: judged against the NaCl definition ----
+	// crypto_box_beforenm(pk, sk) = HSalsa20(X25519(sk, pk), 0^16); Precompute has no
+	// error return, so the definition applies to every 32-byte peer key. The key is
+	// derived by the reference composition (big-integer ladder -> spec HSalsa20);
+	// libsodium is a witness only where it accepts the peer key.
+	type peerKey struct {
+		enc  [32]byte
+		cls  string
+		desc string
+	}
+	var fam []peerKey
+	{
+		enc, desc := x25519big.LowOrderEncodings()
+		for i := range enc {
+			fam = append(fam, peerKey{enc[i], "low-order", desc[i]})
 		}
-		var k [32]byte
-		var sealed []byte
-		pv, _ := mon.Panics(func() {
-			box.Precompute(&k, &peer, sk)
-			sealed = box.Seal(nil, msg, nonce, &peer, sk)
-		})
-		m.Eval()
-		m.Distinct("low-order-peer " + desc[i])
-		if pv != nil {
-			m.Count("low_order_peer:go_panics", 1)
+		for _, k := range []int64{2, 9, 18} { // non-canonical, not low order
+			e := x25519big.EncodeUraw(new(big.Int).Add(x25519big.P, big.NewInt(k)))
+			fam = append(fam, peerKey{e, "noncanonical", fmt.Sprintf("p+%d", k)})
+			e[31] |= 0x80
+			fam = append(fam, peerKey{e, "noncanonical", fmt.Sprintf("p+%d|bit255", k)})
+		}
+		fam = append(fam, peerKey{[32]byte{9}, "ordinary", "basepoint"}, peerKey{[32]byte{9, 31: 0x80}, "ordinary", "basepoint|bit255"},
+			peerKey{[32]byte{2}, "ordinary", "u=2"}, peerKey{[32]byte{}, "random", "random"}, peerKey{[32]byte{}, "random", "random|bit255"})
+	}
+	famReps := m.N(8, 64)
+	m.Cases("box-peer-family", len(fam)*famReps, func(i int64, r *rand.Rand) {
+		pk := fam[int(i)%len(fam)]
+		peer := pk.enc
+		if pk.cls == "random" {
+			copy(peer[:], mon.Bytes(r, 32))
+			peer[31] &= 0x7f
+			if pk.desc == "random|bit255" {
+				peer[31] |= 0x80
+			}
+		}
+		mypk, sk, _ := box.GenerateKey(mon.Reader{R: r})
+		nonce := nonce24(r)
+		n := msgLen(i/int64(len(fam))*3, r) // dense lengths on the repetitions
+		if i%2 == 1 {
+			n = boundaryLen(r, 300)
+		}
+		msg := mon.Bytes(r, n)
+		tag := pk.cls + ":" + pk.desc
+		var zero16 [16]byte
+		shared := x25519big.X25519(sk, &peer)
+		kref := refsalsa.HSalsa20(&shared, &zero16, &refsalsa.Sigma)
+		lowOrder := x25519big.IsZero(&shared)
+		if lowOrder != (pk.cls == "low-order") {
+			m.Inconclusive("peer family classification disagrees with the ladder for " + tag)
 			return
 		}
-		var zero32 [32]byte
-		var zero16 [16]byte
-		if k == refsalsa.HSalsa20(&zero32, &zero16, &refsalsa.Sigma) {
-			m.Count("low_order_peer:go_precompute=HSalsa20(0)", 1)
-		} else {
-			m.Count("low_order_peer:go_precompute_other", 1)
+		ks, sok := sodiumnacl.BoxBeforeNM(&peer, sk)
+		switch {
+		case sok && ks != kref:
+			m.Inconclusive(fmt.Sprintf("oracle conflict: reference composition vs crypto_box_beforenm for peer %x", peer))
+			return
+		case sok:
+			m.Count("peer_family:libsodium_witness_agrees", 1)
+		default:
+			m.Count("peer_family:libsodium_refuses(reference only)", 1)
 		}
-		if bytes.Equal(sealed, sodiumnacl.SecretboxEasy(msg, nonce, &k)) {
-			m.Count("low_order_peer:go_seals_under_that_key", 1)
+		wit := map[string]any{"peer_public_key": mon.FullHex(peer[:]), "peer": tag, "private_key": mon.FullHex(sk[:]), "nonce": mon.FullHex(nonce[:]), "msg": mon.FullHex(msg),
+			"x25519(sk,peer)": mon.FullHex(shared[:]), "nacl_beforenm": mon.FullHex(kref[:])}
+		g := &snaps{}
+		g.add("peer public key", peer[:])
+		g.add("private key", sk[:])
+		g.add("nonce", nonce[:])
+		g.add("message", msg)
+		var k [32]byte
+		fill(k[:], 0xA5)
+		box.Precompute(&k, &peer, sk)
+		m.Eval()
+		m.Count("peer_family_precompute:"+pk.cls, 1)
+		if pk.cls == "low-order" {
+			m.Count("low_order_peer_judged:"+pk.desc, 1)
+		}
+		m.Distinct("peer-family " + tag + " len=" + lenClass(n))
+		if k != kref {
+			wit["precompute"] = mon.FullHex(k[:])
+			m.Violation("precompute-differs-from-nacl-definition:"+tag, wit)
+		}
+		refBox := sodiumnacl.SecretboxEasy(msg, nonce, &kref) // secretbox under the reference key
+		sealed := box.Seal(nil, msg, nonce, &peer, sk)
+		m.Eval()
+		if !bytes.Equal(sealed, refBox) {
+			wit["sealed"], wit["want"] = mon.Hex(sealed), mon.Hex(refBox)
+			m.Violation("seal-differs-from-nacl-definition:"+tag, wit)
+		}
+		g.add("reference box", refBox)
+		pt, ok := box.Open(nil, refBox, nonce, &peer, sk)
+		m.Eval()
+		if !ok || !bytes.Equal(pt, msg) {
+			wit["open_ok"] = ok
+			m.Violation("open-rejects-nacl-definition-box:"+tag, wit)
+		}
+		pt, ok = box.Open(nil, sealed, nonce, &peer, sk)
+		m.Eval()
+		if !ok || !bytes.Equal(pt, msg) {
+			m.Violation("seal-open-round-trip-fails:"+tag, wit)
+		}
+		sealedAfter := box.SealAfterPrecomputation(nil, msg, nonce, &k)
+		if k == kref && !bytes.Equal(sealedAfter, refBox) {
+			m.Violation("sealafterprecomputation-differs-from-nacl-definition:"+tag, wit)
+		}
+		// sealed boxes: the peer key as recipient of SealAnonymous ...
+		anon, err := box.SealAnonymous(nil, msg, &peer, mon.Reader{R: r})
+		m.Eval()
+		if err != nil || len(anon) != n+box.AnonymousOverhead {
+			wit["err"] = fmt.Sprint(err)
+			m.Violation("sealanonymous-error-or-length:"+tag, wit)
+		} else {
+			// key = HSalsa20(X25519(esk, peer)); for a low-order peer that is kref's
+			// low-order value whatever esk is, so the body is checkable without esk
+			var an [24]byte
+			copy(an[:], sodiumnacl.GenericHash(24, append(append([]byte{}, anon[:32]...), peer[:]...)))
+			if lowOrder {
+				if want := sodiumnacl.SecretboxEasy(msg, &an, &kref); !bytes.Equal(anon[32:], want) {
+					wit["sealed_anonymous"] = mon.Hex(anon)
+					m.Violation("sealanonymous-differs-from-nacl-definition:"+tag, wit)
+				}
+				m.Count("peer_family_sealanonymous_low_order", 1)
+			}
+		}
+		// ... and as the ephemeral key of a box presented to OpenAnonymous
+		var an2 [24]byte
+		copy(an2[:], sodiumnacl.GenericHash(24, append(append([]byte{}, peer[:]...), mypk[:]...)))
+		refAnon := append(append([]byte{}, peer[:]...), sodiumnacl.SecretboxEasy(msg, &an2, &kref)...)
+		pt, ok = box.OpenAnonymous(nil, refAnon, mypk, sk)
+		m.Eval()
+		m.Count("peer_family_openanonymous:"+pk.cls, 1)
+		if !ok || !bytes.Equal(pt, msg) {
+			wit["sealed_anonymous"], wit["open_ok"] = mon.Hex(refAnon), ok
+			m.Violation("openanonymous-rejects-nacl-definition-box:"+tag, wit)
+		}
+		if ch := g.changed(); ch != "" {
+			wit["modified"] = ch
+			m.Violation("input-or-earlier-output-modified:box-peer-family", wit)
+		}
+		if i < int64(len(fam)) && pk.cls == "low-order" && i%4 == 0 {
+			m.Sample(map[string]any{"prim": "box-peer-family", "peer": tag, "peer_public_key": mon.FullHex(peer[:]), "nacl_beforenm": mon.FullHex(kref[:])})
 		}
 	})
+	{
+		_, desc := x25519big.LowOrderEncodings()
+		for _, d := range desc {
+			m.Gate("low_order_peer_judged:"+d, famReps, "low-order peer key "+d+" judged against HSalsa20(X25519(sk,pk),0)")
+		}
+	}
+	m.Gate("peer_family_precompute:noncanonical", 6*famReps, "non-canonical (>= p) peer keys")
+	m.Gate("peer_family_openanonymous:low-order", 14*famReps, "low-order ephemeral key presented to OpenAnonymous")
+	m.Gate("peer_family_sealanonymous_low_order", 14*famReps, "low-order recipient given to SealAnonymous")
 
 	q := m.N(3000, 100000)
 	for _, p := range []string{"secretbox", "box", "box_afternm", "anonymous", "sign", "auth"} {
